@@ -373,6 +373,30 @@ def o_matrix_products(_concrete=None):
             res = l @ a
             rec.native(f"type({lc.__name__}@{ac.__name__})", type(res) is lc, type(res).__name__)
             rec.prove(f"{lc.__name__}@{ac.__name__}", [], _eq_all(z3, _ents(res), want))
+    # associativity with SHARED operand objects, both evaluation orders, every kind mix without Euler extraction
+    # (a in {Matrix, FrozenMatrix}; b in all four rotation kinds; v in the three vector kinds): each side is also
+    # compared with the independent reference product, so an operand damaged by an earlier evaluation is noticed.
+    vs = fx.vec("v")
+    for ac in mats:
+        for bk in ("Matrix", "FrozenMatrix", "Angle", "FrozenAngle"):
+            for vk in ("Vec", "FrozenVec", "tuple"):
+                for order in ("rhs-first", "lhs-first"):
+                    a_obj, a_ents = fx.gen_matrix(ac, "A")
+                    if bk.endswith("Matrix"):
+                        b_obj, b_ents = fx.gen_matrix(getattr(sm, "Py_" + bk), "B")
+                    else:
+                        b_obj, b_ents = fx.mk_angle(getattr(sm, "Py_" + bk), ta), _sdk_matrix(ta)
+                    v_obj = {"Vec": lambda: sm.Py_Vec(*vs), "FrozenVec": lambda: sm.Py_FrozenVec(*vs), "tuple": lambda: tuple(vs)}[vk]()
+                    want = _vm(_vm(vs, a_ents), b_ents)
+                    if order == "rhs-first":
+                        rhs = v_obj @ (a_obj @ b_obj)
+                        lhs = (v_obj @ a_obj) @ b_obj
+                    else:
+                        lhs = (v_obj @ a_obj) @ b_obj
+                        rhs = v_obj @ (a_obj @ b_obj)
+                    lab = f"assoc {vk} @ {ac.__name__} @ {bk} [{order}]"
+                    rec.prove(lab + " lhs", [], _eq_all(z3, [lhs.x, lhs.y, lhs.z], want), conj=True)
+                    rec.prove(lab + " rhs", [], _eq_all(z3, [rhs.x, rhs.y, rhs.z], want), conj=True)
     # associativity of the vector action through two general matrices
     v = fx.vec("v")
     A, ae = fx.gen_matrix(sm.Py_Matrix, "A")
